@@ -353,10 +353,10 @@ Definition match_pattern_fixed := match_pattern_fixed_with go_lower reserved_ci.
 Definition match_pattern_anchored := match_pattern_anchored_with go_lower reserved_ci.
 Definition glob_matches := glob_matches_with go_lower reserved_ci.
 
-(* The function the check compares with d2ir.matchPattern.  Switch to match_pattern_fixed when
-   coq/C12/fix.patch lands (C12_match_pattern_fixed_* are about it), to match_pattern_anchored when
-   coq/C12/fix_anchor.patch lands (C12_match_pattern_spec). *)
-Definition match_pattern := match_pattern_pinned.
+(* The function the check compares with d2ir.matchPattern.  coq/C12/fix.patch landed in /repo as ef9a8be47
+   (C12_match_pattern_fixed_* are about it); switch to match_pattern_anchored when coq/C12/fix_anchor.patch lands
+   (C12_match_pattern_spec).  match_pattern_pinned is the code before ef9a8be47 (refutation theorems). *)
+Definition match_pattern := match_pattern_fixed.
 
 Definition ascii_lower (b : N) : N := if in_rng 65 90 b then b + 32 else b.
 Definition is_ascii (s : str) : bool := forallb (fun b => b <? 128) s.
